@@ -336,6 +336,10 @@ def rule_global_state(cx, rid, mods, floor=40, only=None):
                     kind = "empty-container"
                 elif cn in ("dict", "list", "set"):
                     kind = "table"
+                elif cn in m.funcs and not any(isinstance(x, (ast.Yield, ast.YieldFrom)) for x in ast.walk(m.funcs[cn])):
+                    # built once at import by a function of the module (`_invert_registry()`): a table like a
+                    # comprehension; the who-may-mutate rules below still apply to it
+                    kind = "table"
                 else:
                     kind = "stateful-object"
             if kind:
